@@ -552,6 +552,14 @@ def iterate(eng, v, allow_symbolic=False):
         if allow_symbolic:
             return v
         raise Unsupported("symbolic iteration without an invariant")
+    if type(v).__name__ == "SymList":
+        n = v.length
+        c = T.simp(n) if T.is_sym(n) else n
+        if not T.is_sym(c):
+            return [v.item(i) for i in range(int(c))]
+        if allow_symbolic:
+            return SymbolicRange(0, n, 1, wrap=lambda k, i, v=v: v.item(i))
+        raise Unsupported("iteration over a list of symbolic length without an invariant")
     if isinstance(v, EnumerateVal):
         inner = iterate(eng, v.inner, allow_symbolic)
         if isinstance(inner, SymbolicRange):
@@ -953,7 +961,12 @@ def arr_setitem(eng, a, idx, value):
             if not is_one(d_v) and not dim_eq(d_v, d_t):
                 if not T.is_sym(d_v) and not T.is_sym(d_t):
                     raise I.PyRaise("ValueError", (f"could not broadcast input array from shape {value.shape} into shape {tuple(vshape)}",))
-                eng.assume(T.compare("eq", d_v, d_t))
+                eq = T.compare("eq", d_v, d_t)
+                if not eng.proves(eq):
+                    if eng.feasible(z3.And(z3.Not(T.zb(eq)), T.zi(d_v) == 1)):
+                        raise Unsupported("broadcasting of a symbolic extent that may be 1 into a slice")
+                    if not eng.branch(eq):
+                        raise I.PyRaise("ValueError", (f"could not broadcast input array from shape {value.shape} into shape {tuple(vshape)}",))
     else:
         vfn, vsh = None, ()
 
